@@ -129,11 +129,14 @@ example : ∃ u ∈ apiTable, u.func = "compute_dynamics" ∧ u.style.guarded = 
 /-- a failing run of a guarded API: N = 3, item 1 fails: enter, one update, exit -/
 example : apiRun .tryFinally 3 (some 1) = [.enter, .update, .exit] := by decide
 
-/-- hypotheses of `no_timer_after_exit` are met by a real interleaved run: the legacy race
-    schedule replayed on the lock protocol ends finished, drained, and with nothing alive -/
+/-- hypotheses of `no_timer_after_exit` are met by a real interleaved run, the race of the
+    legacy protocol replayed on the source's protocol: enter, update (18 main steps), timer 1
+    fires, main runs all of `exit` (7 steps), then the callback runs: it finds the bar
+    inactive and returns.  Finished, drained, two timers created, nothing alive. -/
 example :
     let s := runSchedule barProtocol (init [.enter, .update, .exit] true)
-      (legacyRaceSchedule ++ List.replicate 12 (Action.timer 1))
+      (List.replicate 18 Action.main ++ [Action.fire 1] ++ List.replicate 7 Action.main ++
+        List.replicate 3 (Action.timer 1))
     s.mainFinished = true ∧ s.anyRunning = false ∧ s.timers.length = 2 ∧ s.aliveTimers = [] := by
   decide
 
